@@ -443,6 +443,50 @@ def gen_cases(ctx, n):
     return cases
 
 
+def _fill(cases, seed0=7):
+    for i, c in enumerate(cases):
+        c.setdefault('factory', False)
+        c.setdefault('resp_future', False)
+        c.setdefault('up_n', None)
+        c.setdefault('h_limit', None)
+        c.setdefault('lenreq', i % 2 == 0)
+        c.setdefault('seed', seed0 + i)
+    return cases
+
+
+def disposal_oracle():
+    """(used by C09) the Rx clients: an observer that disposes at every moment from the subscribing turn to after the last
+    element; the stream / channel must be cancelled exactly when it has not terminated, and never after"""
+    cases = []
+    for ver in ('rx4', 'rx3'):
+        for n in (3, 6):
+            for da in (-1, 0, 1, 2, n - 1, n):
+                for limit in (1, 2, MAXN):
+                    cases.append(dict(ver=ver, kind='stream', n=n, limit=limit, fail_at=None, dispose_after=da))
+        for da in (-1, 0, 2):
+            cases.append(dict(ver=ver, kind='channel', n=3, limit=2, fail_at=None, dispose_after=da, up_n=2, h_limit=2))
+    out = []
+    for c in _fill(cases):
+        out.extend(oracle(run_case(c)))
+    return out
+
+
+def credit_oracle():
+    """(used by C06) credit through the Rx adapters: the limit an application configures on either side of a stream or channel
+    is what is requested from the peer, first grant and every refill"""
+    cases = []
+    for ver in ('rx4', 'rx3'):
+        for limit in (1, 2, 3, MAXN):
+            cases.append(dict(ver=ver, kind='stream', n=7, limit=limit, fail_at=None, dispose_after=None))
+        for up, hl in ((2, 2), (4, 2), (3, 3), (3, 2), (1, 1), (6, 1), (5, MAXN)):
+            cases.append(dict(ver=ver, kind='channel-core', n=0, limit=1, fail_at=None, dispose_after=None, up_n=up, h_limit=hl))
+            cases.append(dict(ver=ver, kind='channel', n=3, limit=2, fail_at=None, dispose_after=None, up_n=up, h_limit=hl))
+    out = []
+    for c in _fill(cases, 101):
+        out.extend(oracle(run_case(c)))
+    return out
+
+
 def correspond(ctx, corr, model_ok):
     cases = gen_cases(ctx, ctx.scale(150, 1500))
     coq = []
